@@ -3,7 +3,7 @@
 (* {ES256, EdDSA, unknown algorithm, ES256 with unknown type}; all attestation *)
 (* format lists of length 0..MaxF over {packed, none, tpm, other}; algorithm   *)
 (* identifiers across the i32 range; type strings up to the capacity.  C14.    *)
-EXTENDS Ctap, Gen, Dict
+EXTENDS Ctap, Gen, Lattice
 
 CONSTANTS MaxP, MaxF
 
@@ -35,6 +35,7 @@ AlgCases ==
     {SentCase(1, [McBaseAfter EXCEPT !.pubKeyCredParams = <<[alg |-> a, type |-> t], ParamOf(ALG_EdDSA)>>], "params-alg", F) :
         a \in AlgValues, t \in TypeStrings}
 
+NearMisses(w) == CaseVariants(w) \cup {w \o <<32>>, <<32>> \o w, w \o <<0>>, SubSeq(w, 1, Len(w) - 1), w \o <<115>>}
 \* candidates for an identifier WRONGLY taken for a known one: congruent to -7 / -8 modulo 2^8 and
 \* 2^16, the other signature algorithms of the IANA COSE registry, every integer literal of the
 \* source; alone, in front of the two known ones and between them (where it would crowd one out)
@@ -50,6 +51,12 @@ AlgCandidateCases ==
              w \in {x \in DictAscii : Len(x) <= 32}}
     \cup {SentCase(1, [McReqMin EXCEPT !.attestationFormatsPreference = <<<<w, N_packed>>>>], "formats-candidate", F) :
              w \in {x \in DictAscii : Len(x) <= 32}}
+    \* near misses of the one accepted type and of the accepted formats: letter case, one character
+    \* more or less, white space (two such entries in front of the genuine ones fill both slots)
+    \cup {SentCase(1, [McBaseAfter EXCEPT !.pubKeyCredParams = <<[alg |-> ALG_ES256, type |-> w], [alg |-> ALG_EdDSA, type |-> w], ParamOf(ALG_EdDSA), ParamOf(ALG_ES256)>>],
+                    "params-type-near-miss", F) : w \in NearMisses(N_publicKey)}
+    \cup {SentCase(1, [McReqMin EXCEPT !.attestationFormatsPreference = <<<<w, N_none>>>>], "formats-near-miss", F) :
+             w \in NearMisses(N_packed) \cup NearMisses(N_none)}
 
 \* a long list (the changelog promises more than twelve entries are fine)
 LongCases ==
